@@ -97,6 +97,19 @@ theorem C05_text_general (c : Cls) (hc : ClsOK c) (T : Table) (hop : OpWordFree 
     parseFull c T false false false (renderStr e) = .ok e :=
   parse_render_general c hc T hop (kwOwned_of_accepted c hc T hacc) e hwf ha
 
+/-- **C05 (text, default tokenizer, any accepted table)**: the same without the premise on the table — also keys
+    like `GPL 2.0 or later` — under the proviso stated on the rendered text: whichever way its words fall
+    into the tokens of the rendering, no occurrence of a stored name reaches across the boundary between
+    two of them (decidable for a given expression; it fails, and so does the round trip, for the keys
+    `mit` and `mit and x` in `mit AND x`). -/
+theorem C05_text_proviso (c : Cls) (hc : ClsOK c) (T : Table) (hacc : tableRefused c T = false)
+    (e : Expr Atom) (hwf : BP.WFE e) (ha : ∀ a ∈ literals e, AtomOKG c T a)
+    (hwithin : ∀ segs, SegsFor c T (BP.toksOf (fun _ => false) e) segs → segPieces segs = wordPieces c (renderStr e) →
+      ∀ k ∈ (buildTrie c T).iter c (renderStr e) true, k.val.isSome = true →
+        ∃ sg ∈ segs, ∃ p ∈ sg.1, ∃ p' ∈ sg.1, k.s = p.start ∧ k.e = p'.stop) :
+    parseFull c T false false false (renderStr e) = .ok e :=
+  parse_render_within c hc T (kwOwned_of_accepted c hc T hacc) e hwf ha hwithin
+
 /-- … and that text is a fixed point of parse-then-render -/
 theorem C05_fixpoint_general (c : Cls) (hc : ClsOK c) (T : Table) (hop : OpWordFree c T) (hacc : tableRefused c T = false)
     (e : Expr Atom) (hwf : BP.WFE e) (ha : ∀ a ∈ literals e, AtomOKG c T a) (e' : Expr Atom)
